@@ -190,3 +190,21 @@ Proof.
   - eexists. vm_compute. reflexivity.
   - eexists. eexists. vm_compute. reflexivity.
 Qed.
+
+(* ---- code-level tie (docs/py2coq.md): the exon scan of ONE transcript in RIRecord.convert_to_variant_records (the
+        iterator loop `it = iter(model.exon)`, `exon = next(it, None)`, `while exon:`: spliced when an exon ending at the
+        upstream end is followed by one starting at the downstream start; retained when `exon_start < ue < ds <
+        exon_end`), translated from /repo's current source by harness/translate/py2coq.py into coq/Gen/Py_RIRecord.v on
+        every run (explicit fuel S (length exons), proved sufficient), is Rmats.ri_scan.  This ties the `ds < exon_end`
+        test to the source BODY, not only to the constant Gen/RmatsConst.ri_end_slack. ---- *)
+From MoPep Require Gen.Py_RIRecord.
+From MoPep Require Import Model.PyRt Proofs.Py2CoqRmatsProofs.
+
+Theorem code_ri_scan_translated : Py_RIRecord.py_ri_scan_untranslated = false.
+Proof. vm_compute. reflexivity. Qed.
+Print Assumptions code_ri_scan_translated.
+
+Theorem code_ri_scan_is_model : forall exons ue ds,
+  Py_RIRecord.py_ri_scan exons ue ds = POk (ri_scan exons ue ds).
+Proof. exact code_ri_scan_is_model_l. Qed.
+Print Assumptions code_ri_scan_is_model.
